@@ -34,4 +34,10 @@ def instances(tier):
                             cover=["solved", "average"], weight=30))
         out.append(Instance("C07", "sys_common:s_run", dict(shape=sh, oracle="c07", opts={"energy": True, "phase": "b"}),
                             name="S/" + sid + "@b", uf=True, cover=["solved"], weight=10))
+    if tier == "thorough":
+        for sid, sh in shapes.enumerate_mux().items():
+            if sid.startswith("mux4"):
+                continue
+            out.append(Instance("C07", "sys_common:s_run", dict(shape=sh, oracle="c07", opts={"energy": True}), name="S/enum/" + sid, uf=True,
+                                cover=["solved"], weight=15, max_paths=8000, time_limit=3000))
     return out, META
